@@ -40,7 +40,7 @@ def fs_search(res, tier, rng, exe):
             # members: hostile names, some aimed at the planted links
             names = []
             isunix = rng.random() < 0.5; sep = b"/" if isunix else b"\\"
-            plan = rng.choice(["dirlink", "dangling-final", "live-final", "dotdot", "abs", "mixed"])
+            plan = ["dirlink", "dangling-final", "live-final", "dotdot", "abs", "mixed"][i % 6]       # every plan x every option set
             if plan == "dirlink":
                 os.symlink(outside, os.path.join(dest, "assets")); names = [b"assets" + sep + b"victim.txt", b"assets" + sep + b"new.txt", b"assets" + sep + b"sub" + sep + b"v2.txt",
                          b"assets" + sep + sep + b"dbl.txt", b"assets" + sep + b"." + sep + b"dot.txt", b"assets" + sep + sep + sep + b"victim.txt"]
@@ -63,7 +63,7 @@ def fs_search(res, tier, rng, exe):
             cab = cabfmt.build_single([cabfmt.Folder(("none",), mem)], rng)
             cabp = os.path.join(work, "t.cab"); open(cabp, "wb").write(cab)
             before = snapshot(outside)
-            opts = rng.choice([[], ["-L"], ["-q"], ["-n"], ["-L", "-q"]])
+            opts = [[], ["-n"], ["-L"], ["-q"], ["-n", "-L"], ["-L", "-q"]][(i // 6) % 6]
             r = subprocess.run([exe] + opts + ["-d", dest, cabp], capture_output=True, timeout=30, cwd=work)
             after = snapshot(outside)
             res.evaluations += 1; res.nontrivial.add((plan, tuple(names), tuple(opts))); res.count("fs-" + plan)
